@@ -5,6 +5,7 @@ package main
 
 import (
 	"fmt"
+	"go/ast"
 	"go/token"
 	"go/types"
 	"sort"
@@ -149,7 +150,7 @@ func checkC14(P *Program, r *Result, tier string) {
 				if isInitFunc(u.fn) {
 					continue
 				}
-				if writer != "" && u.fn.Name() == writer {
+				if (writer != "" && u.fn.Name() == writer) || isConfigSetterStore(u.fn, u.in) {
 					class = "configuration"
 					continue
 				}
@@ -218,7 +219,7 @@ func checkC14(P *Program, r *Result, tier string) {
 				if i := strings.IndexAny(rel, "[*{"); i >= 0 {
 					base = rel[:i]
 				}
-				if c14ConfigWriters[base] != "" {
+				if c14ConfigWriters[base] != "" || isConfigSetterStore(e.In.Parent(), e.In) {
 					continue
 				}
 				bad = "store to global " + rel + " at " + P.pos(instrPos(e.In)) + " " + e.Via
@@ -439,3 +440,45 @@ func reachesWithoutIncl(from, to ssa.Instruction, stop func(ssa.Instruction) boo
 }
 
 func init() { register("C14", "other", checkC14) }
+
+// isConfigSetterStore: the store is the whole point of an exported package-level
+// setter (Register…/Set…): it puts one of the function's own parameters into a
+// package-level variable (or a field of one). Such process-wide switches are
+// configuration by design, not shared state between instances; they are listed
+// in the evidence.
+func isConfigSetterStore(fn *ssa.Function, in ssa.Instruction) bool {
+	st, ok := in.(*ssa.Store)
+	if !ok || fn == nil || fn.Signature.Recv() != nil || !ast.IsExported(fn.Name()) {
+		return false
+	}
+	if !(strings.HasPrefix(fn.Name(), "Register") || strings.HasPrefix(fn.Name(), "Set")) {
+		return false
+	}
+	v := st.Val
+	for {
+		if cv, isCv := v.(*ssa.Convert); isCv {
+			v = cv.X
+			continue
+		}
+		if ct, isCt := v.(*ssa.ChangeType); isCt {
+			v = ct.X
+			continue
+		}
+		break
+	}
+	p, isP := v.(*ssa.Parameter)
+	if !isP || p.Parent() != fn {
+		return false
+	}
+	// the target is a global or a field of a global
+	a := st.Addr
+	for {
+		if fa, isFA := a.(*ssa.FieldAddr); isFA {
+			a = fa.X
+			continue
+		}
+		break
+	}
+	_, isG := a.(*ssa.Global)
+	return isG
+}
